@@ -374,11 +374,8 @@ func RunOneShot(kind string, text string, timeoutSec int, scratch string) OneSho
 	if first == "sat" || first == "unsat" {
 		res = first
 	}
-	if strings.Contains(so, "(error") && res != "sat" {
+	if res == "unknown" && strings.Contains(so, "(error") {
 		res = "error"
-	}
-	if strings.Contains(so, "timeout") {
-		res = "unknown"
 	}
 	return OneShot{Res: res, Out: so, Dur: time.Since(t0)}
 }
